@@ -459,12 +459,12 @@ Section StrategyProofs.
   Lemma last_obs_eq zs wl : map (last_window (zlen (hd [] zs)) wl) zs = last_obs zs wl.
   Proof. unfold last_obs. apply map_ext. intro zv. apply last_window_eq. Qed.
 
-  Lemma direct_flow sc zs wl fh : wf_zs zs -> 1 <= wl -> wf_fh fh ->
+  Lemma direct_flow sc zs zp wl fh : wf_zs zs -> 1 <= wl -> wf_fh fh ->
     let y := hd [] zs in
     let nw := n_windows (zlen y) wl fh in
     let X := train_X sc zs wl nw in
-    let xp := enc sc (last_obs zs wl) in
-    direct_run M fit1 pred1 sc zs wl fh =
+    let xp := enc sc (last_obs zp wl) in
+    direct_run M fit1 pred1 sc zs zp wl fh =
       if nw <=? 0 then Err else
       Ok (mkRun (map (fun h => Fit1 X (train_t y wl nw h)) fh)
                 (map (fun i => (i, xp)) (zrange 0 (zlen fh) 1))
@@ -481,12 +481,12 @@ Section StrategyProofs.
       apply map_ext_zrange. intros i Hi. f_equal. f_equal. apply col_of_map. lia.
   Qed.
 
-  Lemma multioutput_flow sc zs wl fh : wf_zs zs -> 1 <= wl -> wf_fh fh ->
+  Lemma multioutput_flow sc zs zp wl fh : wf_zs zs -> 1 <= wl -> wf_fh fh ->
     let y := hd [] zs in
     let nw := n_windows (zlen y) wl fh in
     let X := train_X sc zs wl nw in
-    let xp := enc sc (last_obs zs wl) in
-    multioutput_run M fitm predm sc zs wl fh =
+    let xp := enc sc (last_obs zp wl) in
+    multioutput_run M fitm predm sc zs zp wl fh =
       if nw <=? 0 then Err else
       Ok (mkRun [FitM X (train_T y wl nw fh)] [(0, xp)] (predm (fitm X (train_T y wl nw fh)) xp)).
   Proof.
@@ -566,37 +566,39 @@ Section StrategyProofs.
      next observation as target; step i+1 (i = 0 .. max fh - 1) is predicted from the last wl values
      of the series extended by the predictions made so far (exogenous columns: extended by the rows
      of the X passed to predict); the forecast for step h is the output of call h *)
-  Lemma recursive_flow sc zs wl fh xfut : wf_zs zs -> 1 <= wl -> wf_fh fh ->
+  Lemma recursive_flow sc zs zp wl fh xfut : wf_zs zs -> 1 <= wl -> wf_fh fh ->
+    wf_zs zp -> wl <= zlen (hd [] zp) ->
     let y := hd [] zs in
-    let n := zlen y in
-    let nw := n - wl in
+    let nw := zlen y - wl in
     let X := train_X sc zs wl nw in
     let t := train_t y wl nw 1 in
     let m := fit1 X t in
-    if nw <=? 0 then recursive_run M fit1 pred1 sc zs wl fh xfut = Err else
+    let yp := hd [] zp in
+    let n := zlen yp in
+    if nw <=? 0 then recursive_run M fit1 pred1 sc zs zp wl fh xfut = Err else
     exists steps,
-      recursive_run M fit1 pred1 sc zs wl fh xfut =
+      recursive_run M fit1 pred1 sc zs zp wl fh xfut =
         Ok (mkRun [Fit1 X t] (map (fun s => (0, fst s)) steps)
                   (map (fun h => snd (nth (Z.to_nat (h - 1)) steps dflt)) fh)) /\
       zlen steps = zlast fh /\
       forall i, 0 <= i < zlast fh ->
         nth (Z.to_nat i) steps dflt =
-          let ext := (y ++ map snd steps) :: map (fun p => fst p ++ snd p) (combine (tl zs) xfut) in
+          let ext := (yp ++ map snd steps) :: map (fun p => fst p ++ snd p) (combine (tl zp) xfut) in
           let x := enc sc (map (fun s => zslice s (n - wl + i) (n + i)) ext) in
           (x, pred1 m x).
   Proof.
-    intros Hz Hwl Hfh y n nw X t m. unfold recursive_run. cbv zeta.
-    rewrite (swt_fh_closed zs wl [1] Hz Hwl wf_fh_one). cbv zeta. fold y. fold n.
-    replace (n_windows n wl [1]) with nw by (unfold n_windows, zlast, nw; cbn; lia).
+    intros Hz Hwl Hfh Hzp Hnp y nw X t m yp n. unfold recursive_run. cbv zeta.
+    rewrite (swt_fh_closed zs wl [1] Hz Hwl wf_fh_one). cbv zeta. fold y. fold yp. fold n.
+    replace (n_windows (zlen y) wl [1]) with nw by (unfold n_windows, zlast, nw; cbn; lia).
     destruct (nw <=? 0) eqn:E; [reflexivity|].
     rewrite map_map. fold (train_X sc zs wl nw). fold X.
     change (fun r => map (target_at y wl r) [1]) with (fun r => [target_at y wl r 1]).
     rewrite concat_map_singleton. fold (train_t y wl nw 1). fold t. fold m.
     pose proof (wf_fh_last fh Hfh) as Hfm.
-    set (xb := map (fun p => last_window n wl (fst p) ++ snd p) (combine (tl zs) xfut)).
-    set (Hw := last_window n wl y).
+    set (xb := map (fun p => last_window n wl (fst p) ++ snd p) (combine (tl zp) xfut)).
+    set (Hw := last_window n wl yp).
     assert (HHw : zlen Hw = wl + 0).
-    { unfold Hw. rewrite last_window_eq. rewrite zlen_zslice; unfold n, nw in *; lia. }
+    { unfold Hw. rewrite last_window_eq. rewrite zlen_zslice; unfold n, yp in *; lia. }
     pose proof (rec_steps_spec m sc wl xb (Z.to_nat (zlast fh)) 0 Hw ltac:(lia) HHw) as Hs.
     cbv zeta in Hs. rewrite Z2Nat.id in Hs by lia. rewrite Z.add_0_l in Hs.
     set (steps := rec_steps M pred1 m sc wl xb (zrange 0 (zlast fh) 1) (Hw ++ zeros (zlast fh))) in *.
@@ -610,16 +612,16 @@ Section StrategyProofs.
     - intros i Hi. rewrite Hnth by lia. cbv zeta. rewrite Z2Nat.id by lia.
       assert (Ein : map (fun b => zslice b (0 + i) (wl + 0 + i)) ((Hw ++ map snd steps) :: xb) =
                     map (fun s => zslice s (n - wl + i) (n + i))
-                        ((y ++ map snd steps) :: map (fun p => fst p ++ snd p) (combine (tl zs) xfut))).
+                        ((yp ++ map snd steps) :: map (fun p => fst p ++ snd p) (combine (tl zp) xfut))).
       { cbn [map]. f_equal.
         - unfold Hw. rewrite last_window_eq. replace (wl + 0 + i) with (wl + (0 + i)) by lia.
-          unfold n. rewrite zslice_tail_ext; [f_equal; lia| |lia]. fold n. unfold nw in E. lia.
+          unfold n. rewrite zslice_tail_ext; [f_equal; lia| |lia]. fold n. unfold n, yp. lia.
         - unfold xb. rewrite !map_map. apply map_ext_in. intros [xv xf] Hp. cbn [fst snd].
           assert (Hxv : zlen xv = n).
-          { apply in_combine_l in Hp. destruct Hz as [Hne Hall]. unfold n, y.
-            apply Hall. destruct zs as [|z0 zr]; [congruence|]. right. exact Hp. }
+          { apply in_combine_l in Hp. destruct Hzp as [Hne Hall]. unfold n, yp.
+            apply Hall. destruct zp as [|z0 zr]; [congruence|]. right. exact Hp. }
           rewrite last_window_eq. replace (wl + 0 + i) with (wl + (0 + i)) by lia.
-          rewrite <- Hxv. rewrite zslice_tail_ext; [f_equal; lia| |lia]. rewrite Hxv. unfold nw in E. lia. }
+          rewrite <- Hxv. rewrite zslice_tail_ext; [f_equal; lia| |lia]. rewrite Hxv. unfold n, yp. lia. }
       rewrite Ein. reflexivity.
   Qed.
 
@@ -664,25 +666,26 @@ Section StrategyProofs.
     map (fun r => enc sc [zslice y r (r + wl) ++ map (target_at y wl r) (firstn (Z.to_nat i) fh)])
         (zrange 0 nw 1).
 
-  Lemma dirrec_flow sc y wl fh : 1 <= wl -> wf_fh fh ->
-    let n := zlen y in
-    let nw := n_windows n wl fh in
+  Lemma dirrec_flow sc y zp wl fh : 1 <= wl -> wf_fh fh -> wl <= zlen (hd [] zp) ->
+    let yp := hd [] zp in
+    let n := zlen yp in
+    let nw := n_windows (zlen y) wl fh in
     let idx := zrange 0 (zlen fh) 1 in
     let ms := map (fun i => fit1 (dirrec_X sc y wl nw fh i) (train_t y wl nw (znth fh i))) idx in
-    if nw <=? 0 then dirrec_run M fit1 pred1 sc [y] wl fh = Err else
+    if nw <=? 0 then dirrec_run M fit1 pred1 sc [y] zp wl fh = Err else
     exists steps,
-      dirrec_run M fit1 pred1 sc [y] wl fh =
+      dirrec_run M fit1 pred1 sc [y] zp wl fh =
         Ok (mkRun (map (fun i => Fit1 (dirrec_X sc y wl nw fh i) (train_t y wl nw (znth fh i))) idx)
                   (combine idx (map fst steps)) (map snd steps)) /\
       zlen steps = zlen fh /\
       forall i m0, 0 <= i < zlen fh ->
         nth (Z.to_nat i) steps dflt =
-          let x := enc sc [zslice y (n - wl) n ++ firstn (Z.to_nat i) (map snd steps)] in
+          let x := enc sc [zslice yp (n - wl) n ++ firstn (Z.to_nat i) (map snd steps)] in
           (x, pred1 (nth (Z.to_nat i) ms m0) x).
   Proof.
-    intros Hwl Hfh n nw idx ms. unfold dirrec_run.
+    intros Hwl Hfh Hnp yp n nw idx ms. unfold dirrec_run.
     assert (Hz : wf_zs [y]) by (split; [congruence|]; intros zv [<-|[]]; reflexivity).
-    rewrite (swt_fh_closed [y] wl fh Hz Hwl Hfh). cbv zeta. cbn [hd]. fold n. fold nw.
+    rewrite (swt_fh_closed [y] wl fh Hz Hwl Hfh). cbv zeta. cbn [hd]. fold yp. fold n. fold nw.
     destruct (nw <=? 0) eqn:E; [reflexivity|].
     pose proof (wf_fh_last fh Hfh) as Hfm.
     rewrite combine_map_same, map_map. cbn [fst snd]. fold idx.
@@ -694,7 +697,7 @@ Section StrategyProofs.
     { intros i Hi. rewrite map_map. unfold dirrec_X. apply map_ext_zrange. intros r Hr.
       unfold window_at. cbn [map hd]. unfold dr_fit_hi.
       assert (Hl : zlen (zslice y r (r + wl)) = wl).
-      { rewrite zlen_zslice; unfold nw, n_windows, n in *; lia. }
+      { rewrite zlen_zslice; unfold nw, n_windows in *; lia. }
       rewrite zslice_app_mid by lia. rewrite Hl.
       assert (E0 : zslice (zslice y r (r + wl)) 0 wl = zslice y r (r + wl)).
       { pose proof (zslice_0_all (zslice y r (r + wl))) as E0. rewrite Hl in E0. exact E0. }
@@ -707,9 +710,9 @@ Section StrategyProofs.
     assert (Ems : msR = ms).
     { unfold msR, ms. apply map_ext_zrange. intros i Hi. rewrite EX, ET by lia. reflexivity. }
     rewrite Ems.
-    set (Hw := last_window n wl y).
+    set (Hw := last_window n wl yp).
     assert (HHw : zlen Hw = wl + 0).
-    { unfold Hw. rewrite last_window_eq. rewrite zlen_zslice; unfold n, nw, n_windows in *; lia. }
+    { unfold Hw. rewrite last_window_eq. rewrite zlen_zslice; unfold n, yp in *; lia. }
     assert (Hmslen : zlen ms = zlen fh).
     { unfold ms. rewrite zlen_map. unfold idx. rewrite zlen_zrange1. pose proof (zlen_nonneg fh). lia. }
     pose proof (dirrec_steps_spec sc wl ms 0 Hw ltac:(lia) HHw) as Hs. cbv zeta in Hs.
@@ -723,7 +726,8 @@ Section StrategyProofs.
   Qed.
 
   (* exogenous data is refused by dirrec *)
-  Lemma dirrec_rejects_exog sc y x xs wl fh : dirrec_run M fit1 pred1 sc (y :: x :: xs) wl fh = Err.
+  Lemma dirrec_rejects_exog sc y x xs zp wl fh :
+    dirrec_run M fit1 pred1 sc (y :: x :: xs) zp wl fh = Err.
   Proof. reflexivity. Qed.
 End StrategyProofs.
 
